@@ -30,3 +30,23 @@ W int w_bin(const char* buf, unsigned long len, unsigned long pos, int op, Out* 
     o->consumed = r.ptr() - buf; return 0;
   } catch (const mp::BinaryReadError& e) { o->line = 1; o->col = 1; return 1; } catch (const mp::ReadError& e) { o->line = e.line(); o->col = e.column(); return 1; } catch (...) { return 2; }
 }
+// ---- header: TextReader::ReadHeader; out[] in the order of the NL header lines
+W int w_read_header(const char* buf, unsigned long len, long* out) {
+  try {
+    TextReader<> r(mp::NLStringRef(buf, len), "in"); mp::NLHeader h = mp::NLHeader();
+    r.ReadHeader(h);
+    int k = 0;
+    out[k++] = h.format; out[k++] = h.num_ampl_options; out[k++] = h.ampl_options[0]; out[k++] = h.ampl_options[1]; out[k++] = h.ampl_options[2];
+    out[k++] = h.num_vars; out[k++] = h.num_algebraic_cons; out[k++] = h.num_objs; out[k++] = h.num_ranges; out[k++] = h.num_eqns; out[k++] = h.num_logical_cons;
+    out[k++] = h.num_nl_cons; out[k++] = h.num_nl_objs; out[k++] = h.num_compl_conds; out[k++] = h.num_nl_compl_conds; out[k++] = h.num_compl_dbl_ineqs; out[k++] = h.num_compl_vars_with_nz_lb;
+    out[k++] = h.num_nl_net_cons; out[k++] = h.num_linear_net_cons;
+    out[k++] = h.num_nl_vars_in_cons; out[k++] = h.num_nl_vars_in_objs; out[k++] = h.num_nl_vars_in_both;
+    out[k++] = h.num_linear_net_vars; out[k++] = h.num_funcs; out[k++] = h.arith_kind; out[k++] = h.flags;
+    out[k++] = h.num_linear_binary_vars; out[k++] = h.num_linear_integer_vars; out[k++] = h.num_nl_integer_vars_in_both; out[k++] = h.num_nl_integer_vars_in_cons; out[k++] = h.num_nl_integer_vars_in_objs;
+    out[k++] = (long)h.num_con_nonzeros; out[k++] = (long)h.num_obj_nonzeros;
+    out[k++] = h.max_con_name_len; out[k++] = h.max_var_name_len;
+    out[k++] = h.num_common_exprs_in_both; out[k++] = h.num_common_exprs_in_cons; out[k++] = h.num_common_exprs_in_objs; out[k++] = h.num_common_exprs_in_single_cons; out[k++] = h.num_common_exprs_in_single_objs;
+    out[k++] = r.ptr() - buf;
+    return 0;
+  } catch (const mp::ReadError& e) { return 1; } catch (...) { return 2; }
+}
